@@ -34,7 +34,7 @@ def gen(R):
         k = R.weighted([
             (4, "read"), (2, "read_attr"), (4, "assign"), (3, "assign_attr"), (4, "set"), (2, "setattr"), (2, "delete"),
             (1, "delete_attr"), (2, "exist"), (1, "names"), (2, "getattr"), (2, "external"), (1, "external_remove"),
-            (2, "snap"), (2, "check_snap"), (1, "precedence"), (1, "virtual"), (1, "read_fn"),
+            (2, "snap"), (2, "check_snap"), (1, "assign_snap"), (1, "set_snap"), (1, "precedence"), (1, "virtual"), (1, "read_fn"),
         ])
         op = {"op": k, "ent": ent, "attr": attr}
         if k in ("assign", "external"):
@@ -48,7 +48,7 @@ def gen(R):
             op["val"] = R.choice([None] + VALUES)
             op["new_attributes"] = R.choice([None, None, {}, {"a": 7}, {"b": "q", "c": [1]}])
             op["kw"] = R.choice([None, None, {"a": 3}, {"b": None, "d": 1.5}])
-        elif k in ("snap", "check_snap"):
+        elif k in ("snap", "check_snap", "assign_snap", "set_snap"):
             op["slot"] = R.choice(["p", "q"])
         elif k == "exist":
             op["with_attr"] = R.bool()
@@ -92,6 +92,11 @@ def snippet(op):
         return f"_out = state.getattr({e!r})"
     if k == "snap":
         return f"snaps[{op['slot']!r}] = {e}\n_out = None"
+    if k == "assign_snap":
+        # a held snapshot used as the value of an assignment: its value and its attributes are written
+        return f"_s = snaps.get({op['slot']!r})\nif _s is not None:\n    {e} = _s\n_out = None"
+    if k == "set_snap":
+        return f"_s = snaps.get({op['slot']!r})\nif _s is not None:\n    state.set({e!r}, _s, d=1.5)\n_out = None"
     if k == "check_snap":
         return f"_s = snaps.get({op['slot']!r})\n_out = None if _s is None else (str(_s), state.getattr(_s), _s.entity_id)"
     if k == "precedence":
@@ -167,6 +172,14 @@ class Model:
             if cur is None:
                 return ("exc", "NameError")
             self.snaps[op["slot"]] = [cur[0], dict(cur[1]), e]
+            return ("ok", None)
+        if k in ("assign_snap", "set_snap"):
+            s = self.snaps.get(op["slot"])
+            if s is not None:
+                attrs = dict(s[1])
+                if k == "set_snap":
+                    attrs["d"] = 1.5
+                self.ents[e] = [s[0], attrs]
             return ("ok", None)
         if k == "check_snap":
             s = self.snaps.get(op["slot"])
@@ -250,7 +263,7 @@ class C16(ModelCheck):
         "context) and externally over 3 entities x 3 attributes: read DOMAIN.name / state.get (value, attributes, "
         "virtual fields), read attribute, assign value (str/int/float/bool/list/dict), assign attribute, state.set with "
         "every combination of value / new_attributes / keyword attributes, state.setattr, del / state.delete of entity "
-        "and attribute, state.exist, state.names, state.getattr, captured snapshots re-inspected later, service-over-"
+        "and attribute, state.exist, state.names, state.getattr, captured snapshots re-inspected later and used as the value of an assignment / state.set, service-over-"
         "state and Python-variable-over-state precedence. After every step the value or exception type the script saw "
         "and Home Assistant's state machine are compared with a dict model. Non-trivial = an attribute-preserving and an "
         "attribute-replacing write to an existing entity; distinct by sequence."
